@@ -190,7 +190,7 @@ end Machine
 /-! ## (v) helpers that captured a buffer identity -/
 
 section Heap
-variable {κ V : Type} [DecidableEq κ]
+variable {κ V : Type} [DecidableEq κ] [DecidableEq V]
 
 /-- every cached interpolator captured the buffer the field currently uses -/
 def HInv (s : FieldSt κ V) : Prop := ∀ k b, s.helpers.lookup k = some b → b = s.cur
@@ -198,15 +198,24 @@ def HInv (s : FieldSt κ V) : Prop := ∀ k b, s.helpers.lookup k = some b → b
 theorem HInv_newField (v : V) : HInv (newField (κ := κ) v) := by
   intro k b h; simp [newField] at h
 
-theorem hstep_spec (s : FieldSt κ V) (e : HEv κ V) (h : HInv s) :
-    HInv (hstep HeapFix.cur s e).1 ∧
+/-- the event is not an evaluation of the numba-compiled rate -/
+def HEv.notJit : HEv κ V → Bool
+  | .rateJit => false
+  | _ => true
+
+/-- what one event returns and leaves behind, for every combination of repairs that contains F2 and
+C; the compiled rate (`rateJit`) is covered only together with fix E (`content`) -/
+theorem hstep_spec (fx : HeapFix) (hi : fx.inval = true) (hc : fx.check = true)
+    (s : FieldSt κ V) (e : HEv κ V) (he : fx.content = true ∨ e.notJit = true) (h : HInv s) :
+    HInv (hstep fx s e).1 ∧
     (match e with
-     | .write v => (hstep HeapFix.cur s e).2 = none ∧ (hstep HeapFix.cur s e).1.bufs (hstep HeapFix.cur s e).1.cur = v
-     | .relink => (hstep HeapFix.cur s e).2 = none ∧ (hstep HeapFix.cur s e).1.bufs (hstep HeapFix.cur s e).1.cur = s.bufs s.cur
-     | .assignNew v => (hstep HeapFix.cur s e).2 = none ∧ (hstep HeapFix.cur s e).1.bufs (hstep HeapFix.cur s e).1.cur = v
-     | .assignSame => (hstep HeapFix.cur s e).2 = none ∧ (hstep HeapFix.cur s e).1.bufs (hstep HeapFix.cur s e).1.cur = s.bufs s.cur
-     | .interp _ => (hstep HeapFix.cur s e).2 = some (s.bufs s.cur) ∧ (hstep HeapFix.cur s e).1.bufs (hstep HeapFix.cur s e).1.cur = s.bufs s.cur
-     | .rate => (hstep HeapFix.cur s e).2 = some (s.bufs s.cur) ∧ (hstep HeapFix.cur s e).1.bufs (hstep HeapFix.cur s e).1.cur = s.bufs s.cur) := by
+     | .write v => (hstep fx s e).2 = none ∧ (hstep fx s e).1.bufs (hstep fx s e).1.cur = v
+     | .relink => (hstep fx s e).2 = none ∧ (hstep fx s e).1.bufs (hstep fx s e).1.cur = s.bufs s.cur
+     | .assignNew v => (hstep fx s e).2 = none ∧ (hstep fx s e).1.bufs (hstep fx s e).1.cur = v
+     | .assignSame => (hstep fx s e).2 = none ∧ (hstep fx s e).1.bufs (hstep fx s e).1.cur = s.bufs s.cur
+     | .interp _ => (hstep fx s e).2 = some (s.bufs s.cur) ∧ (hstep fx s e).1.bufs (hstep fx s e).1.cur = s.bufs s.cur
+     | .rate => (hstep fx s e).2 = some (s.bufs s.cur) ∧ (hstep fx s e).1.bufs (hstep fx s e).1.cur = s.bufs s.cur
+     | .rateJit => (hstep fx s e).2 = some (s.bufs s.cur) ∧ (hstep fx s e).1.bufs (hstep fx s e).1.cur = s.bufs s.cur) := by
   cases e with
   | write v =>
     refine ⟨?_, rfl, ?_⟩
@@ -214,11 +223,11 @@ theorem hstep_spec (s : FieldSt κ V) (e : HEv κ V) (h : HInv s) :
     · simp [hstep]
   | relink =>
     refine ⟨?_, rfl, ?_⟩
-    · intro k b hk; simp [hstep, rebind, HeapFix.cur] at hk
+    · intro k b hk; simp [hstep, rebind, hi] at hk
     · simp [hstep, rebind]
   | assignNew v =>
     refine ⟨?_, rfl, ?_⟩
-    · intro k b hk; simp [hstep, rebind, HeapFix.cur] at hk
+    · intro k b hk; simp [hstep, rebind, hi] at hk
     · simp [hstep, rebind]
   | assignSame => exact ⟨h, rfl, rfl⟩
   | interp k =>
@@ -241,54 +250,118 @@ theorem hstep_spec (s : FieldSt κ V) (e : HEv κ V) (h : HInv s) :
     · next b hb =>
       by_cases hbc : b = s.cur
       · subst hbc
-        simp [HeapFix.cur]
+        simp [hc]
         exact h
       · have : (b != s.cur) = true := by simpa using hbc
-        simp [HeapFix.cur, this]
+        simp [hc, this]
+        exact h
+    · exact ⟨h, rfl, rfl⟩
+  | rateJit =>
+    have hcont : fx.content = true := by
+      rcases he with he | he
+      · exact he
+      · simp [HEv.notJit] at he
+    simp only [hstep]
+    split
+    · next b c hb =>
+      by_cases hbc : b = s.cur
+      · by_cases hcc : c = s.bufs s.cur
+        · subst hbc; subst hcc
+          simp [hc, hcont]
+          exact h
+        · subst hbc
+          simp [hc, hcont, hcc]
+          exact h
+      · have : (b != s.cur) = true := by simpa using hbc
+        simp [hc, this]
         exact h
     · exact ⟨h, rfl, rfl⟩
 
-/-- **No stale helper.**  For every history of {write, relink by a collection, assignment of
-`_data_full` (new or same array), interpolate with any kwargs, rate of a PDE that uses the field
-as a constant}, every value read is the content of the field's *current* buffer. -/
-theorem interpolator_reads_current_buffer :
-    ∀ (es : List (HEv κ V)) (s : FieldSt κ V), HInv s →
-      hrun HeapFix.cur s es = href (s.bufs s.cur) es := by
+/-- all events of the history are covered: either fix E is present or no event evaluates the
+compiled rate -/
+def Covered (fx : HeapFix) (es : List (HEv κ V)) : Prop :=
+  fx.content = true ∨ ∀ e ∈ es, e.notJit = true
+
+/-- **No stale helper (general form).**  With the repairs F2 and C, for every history of {write,
+relink by a collection, assignment of `_data_full` (new or same array), interpolate with any
+kwargs, interpreted rate, compiled rate} that is `Covered`, every value read is the content of
+the field's *current* buffer. -/
+theorem helpers_read_current_content (fx : HeapFix) (hi : fx.inval = true) (hc : fx.check = true) :
+    ∀ (es : List (HEv κ V)) (s : FieldSt κ V), Covered fx es → HInv s →
+      hrun fx s es = href (s.bufs s.cur) es := by
   intro es
   induction es with
-  | nil => intro s _; rfl
+  | nil => intro s _ _; rfl
   | cons e es ih =>
-    intro s h
-    obtain ⟨hinv, hspec⟩ := hstep_spec s e h
+    intro s hcov h
+    have he : fx.content = true ∨ e.notJit = true := by
+      rcases hcov with hcov | hcov
+      · exact Or.inl hcov
+      · exact Or.inr (hcov e (by simp))
+    have hcov' : Covered fx es := by
+      rcases hcov with hcov | hcov
+      · exact Or.inl hcov
+      · exact Or.inr (fun e' he' => hcov e' (by simp [he']))
+    obtain ⟨hinv, hspec⟩ := hstep_spec fx hi hc s e he h
     cases e with
-    | write v => simp only [hrun, href, hspec.1]; rw [ih _ hinv, hspec.2]
-    | relink => simp only [hrun, href, hspec.1]; rw [ih _ hinv, hspec.2]
-    | assignNew v => simp only [hrun, href, hspec.1]; rw [ih _ hinv, hspec.2]
-    | assignSame => simp only [hrun, href, hspec.1]; rw [ih _ hinv, hspec.2]
-    | interp k => simp only [hrun, href, hspec.1]; rw [ih _ hinv, hspec.2]
-    | rate => simp only [hrun, href, hspec.1]; rw [ih _ hinv, hspec.2]
+    | write v => simp only [hrun, href, hspec.1]; rw [ih _ hcov' hinv, hspec.2]
+    | relink => simp only [hrun, href, hspec.1]; rw [ih _ hcov' hinv, hspec.2]
+    | assignNew v => simp only [hrun, href, hspec.1]; rw [ih _ hcov' hinv, hspec.2]
+    | assignSame => simp only [hrun, href, hspec.1]; rw [ih _ hcov' hinv, hspec.2]
+    | interp k => simp only [hrun, href, hspec.1]; rw [ih _ hcov' hinv, hspec.2]
+    | rate => simp only [hrun, href, hspec.1]; rw [ih _ hcov' hinv, hspec.2]
+    | rateJit => simp only [hrun, href, hspec.1]; rw [ih _ hcov' hinv, hspec.2]
+
+/-- **No stale helper, the code as it is** (`HeapFix.cur`: F2 and C, not E): for every history
+WITHOUT evaluations of the numba-compiled rate, every interpolation and every interpreted rate
+reads the content of the field's current buffer.  (The compiled rate is NOT covered: see
+`pde_rate_jit_stale_after_write`.) -/
+theorem interpolator_reads_current_buffer :
+    ∀ (es : List (HEv κ V)) (s : FieldSt κ V), (∀ e ∈ es, e.notJit = true) → HInv s →
+      hrun HeapFix.cur s es = href (s.bufs s.cur) es :=
+  fun es s hnj h => helpers_read_current_content HeapFix.cur rfl rfl es s (Or.inr hnj) h
 
 /-- in particular from a freshly created field -/
-theorem interpolator_reads_current_buffer_new (v : V) (es : List (HEv κ V)) :
+theorem interpolator_reads_current_buffer_new (v : V) (es : List (HEv κ V))
+    (hnj : ∀ e ∈ es, e.notJit = true) :
     hrun HeapFix.cur (newField v) es = href v es :=
-  interpolator_reads_current_buffer es _ (HInv_newField v)
+  interpolator_reads_current_buffer es _ hnj (HInv_newField v)
+
+/-- **With the proposed fix E every history is covered**, including the compiled rate. -/
+theorem helpers_read_current_content_fixE (es : List (HEv κ V)) (s : FieldSt κ V) (h : HInv s) :
+    hrun HeapFix.fixE s es = href (s.bufs s.cur) es :=
+  helpers_read_current_content HeapFix.fixE rfl rfl es s (Or.inl rfl) h
+
+/-- **Finding E (the code as it is): the numba-compiled rate ignores an in-place write to a
+field-valued constant.**  `[compiled rate, write c1, compiled rate]` returns the old content twice. -/
+theorem pde_rate_jit_stale_after_write (c0 c1 : V) (h : c0 ≠ c1) :
+    hrun (κ := κ) HeapFix.cur (newField c0) [.rateJit, .write c1, .rateJit] = [c0, c0] ∧
+    href (κ := κ) c0 [HEv.rateJit, .write c1, .rateJit] = [c0, c1] ∧
+    hrun (κ := κ) HeapFix.cur (newField c0) [.rateJit, .write c1, .rateJit]
+      ≠ href (κ := κ) c0 [HEv.rateJit, .write c1, .rateJit] ∧
+    hrun (κ := κ) HeapFix.fixE (newField c0) [.rateJit, .write c1, .rateJit] = [c0, c1] := by
+  have h1 : hrun (κ := κ) HeapFix.cur (newField c0) [.rateJit, .write c1, .rateJit] = [c0, c0] := by
+    simp [hrun, hstep, newField, HeapFix.cur]
+  refine ⟨h1, rfl, ?_, ?_⟩
+  · rw [h1]; simp [href]; exact h
+  · simp [hrun, hstep, newField, HeapFix.fixE, h]
 
 /-- witness without the invalidation of fix F2 -/
 theorem interpolator_stale_after_relink_old (k : κ) (c0 c1 : V) (h : c0 ≠ c1) :
-    hrun ⟨false, true⟩ (newField c0) [.interp k, .relink, .write c1, .interp k] = [c0, c0] ∧
+    hrun ⟨false, true, false⟩ (newField c0) [.interp k, .relink, .write c1, .interp k] = [c0, c0] ∧
     href c0 [HEv.interp k, .relink, .write c1, .interp k] = [c0, c1] ∧
-    hrun ⟨false, true⟩ (newField c0) [.interp k, .relink, .write c1, .interp k]
+    hrun ⟨false, true, false⟩ (newField c0) [.interp k, .relink, .write c1, .interp k]
       ≠ href c0 [HEv.interp k, .relink, .write c1, .interp k] := by
-  have h1 : hrun ⟨false, true⟩ (newField c0) [.interp k, .relink, .write c1, .interp k] = [c0, c0] := by
+  have h1 : hrun ⟨false, true, false⟩ (newField c0) [.interp k, .relink, .write c1, .interp k] = [c0, c0] := by
     simp [hrun, hstep, newField, rebind]
   refine ⟨h1, rfl, ?_⟩
   rw [h1]; simp [href]; exact h
 
 theorem pde_rate_stale_after_relink_old (c0 c1 : V) (h : c0 ≠ c1) :
-    hrun (κ := κ) ⟨true, false⟩ (newField c0) [.rate, .relink, .write c1, .rate] = [c0, c0] ∧
-    hrun (κ := κ) ⟨true, false⟩ (newField c0) [.rate, .relink, .write c1, .rate]
+    hrun (κ := κ) ⟨true, false, false⟩ (newField c0) [.rate, .relink, .write c1, .rate] = [c0, c0] ∧
+    hrun (κ := κ) ⟨true, false, false⟩ (newField c0) [.rate, .relink, .write c1, .rate]
       ≠ href (κ := κ) c0 [HEv.rate, .relink, .write c1, .rate] := by
-  have h1 : hrun (κ := κ) ⟨true, false⟩ (newField c0) [.rate, .relink, .write c1, .rate] = [c0, c0] := by
+  have h1 : hrun (κ := κ) ⟨true, false, false⟩ (newField c0) [.rate, .relink, .write c1, .rate] = [c0, c0] := by
     simp [hrun, hstep, newField, rebind]
   refine ⟨h1, ?_⟩
   rw [h1]; simp [href]; exact h
@@ -1036,6 +1109,14 @@ example : (call (κ := Nat) (V := Nat) (some 1) id id [(5, 5)] 6).1 = [(6, 6)] :
 
 example : hrun (κ := Nat) HeapFix.cur (newField 1) [.interp 0, .relink, .write 10, .interp 0, .rate, .assignNew 3, .rate]
     = [1, 10, 10, 3] := by decide
+
+/-- the hypothesis of `interpolator_reads_current_buffer` holds for this history ... -/
+example : ∀ e ∈ ([.interp 0, .relink, .write 10, .interp 0, .rate, .assignNew 3, .rate] : List (HEv Nat Nat)), e.notJit = true := by
+  decide
+
+/-- ... and cannot be dropped: the compiled rate of the code as it is returns the frozen 1, with fix E the current 10 -/
+example : hrun (κ := Nat) HeapFix.cur (newField 1) [.rateJit, .write 10, .rateJit, .relink, .rateJit] = [1, 1, 10] ∧
+    hrun (κ := Nat) HeapFix.fixE (newField 1) [.rateJit, .write 10, .rateJit, .relink, .rateJit] = [1, 10, 10] := by decide
 
 
 end PdeVerif.Cache
